@@ -20,6 +20,8 @@ def ivec_ops():
     pb = ""
     return """
 void ivec_push_back(ivec* v, int x) { __CPROVER_assert(v->n < LMAX, "modelled list capacity"); v->a[v->n] = x; v->n = v->n + 1; }
+void ivec_assign(ivec* v, const int* src, int n) { __CPROVER_assert(0 <= n && n <= LMAX, "modelled list capacity"); v->n = n; for (int k = 0; k < LMAX; k++) if (k < n) v->a[k] = src[k]; }
+void ivec_append(ivec* v, const int* src, int n) { for (int k = 0; k < LMAX; k++) if (k < n) ivec_push_back(v, src[k]); }
 void ivec_clear(ivec* v) { v->n = 0; }
 """
 
@@ -164,7 +166,10 @@ def unchanged(L, H="__CPROVER_old"):
 
 
 STORE_RW = [(r"\(int\) iuids\.size\(\)", "iuids_size", 1),
-            (r"(_listVariable\w+)\.push_back\(", r"ivec_push_back(&\1, ", 4)]
+            (r"(_listVariable\w+)\.push_back\(", r"ivec_push_back(&\1, ", "opt"),
+            # forms a refactor may use instead of the element-wise loops
+            (r"(_listVariable\w+) = iuids;", r"ivec_assign(&\1, iuids, iuids_size);", "opt"),
+            (r"(_listVariable\w+)\.insert\(\1\.end\(\), iuids\.begin\(\), iuids\.end\(\)\);", r"ivec_append(&\1, iuids, iuids_size);", "opt")]
 STORE_SIG = r"^void ACalcDbToDb::_storeInVariableList\(int whichDb,\s*\n\s*int status,\s*\n\s*const VectorInt &iuids\)\s*$"
 STORE_CSIG = "void _storeInVariableList(int whichDb, int status, const int* iuids, int iuids_size)"
 
@@ -189,7 +194,7 @@ def store_fn(with_loops=True):
                                   "__CPROVER_loop_invariant(0 <= __CPROVER_loop_entry(%s.n) && __CPROVER_loop_entry(%s.n) <= LMAX)" % (L, L),
                                   "__CPROVER_loop_invariant(%s)" % appended(L, "__CPROVER_loop_entry", "iuids[$q]", "i"),
                                   "__CPROVER_decreases(number - i)"])
-    return Fn("ACalcDbToDb::_storeInVariableList", D2D, STORE_SIG, csig=STORE_CSIG, rewrites=STORE_RW, loops=loops, contract=store_contract())
+    return Fn("ACalcDbToDb::_storeInVariableList", D2D, STORE_SIG, csig=STORE_CSIG, rewrites=STORE_RW, loops=loops, nloops=4 if with_loops else None, contract=store_contract())
 
 
 def unit_store():
@@ -201,7 +206,7 @@ void vf_harness(void)
   VF_REACH();
 }
 """
-    return Unit("C19.storeInVariableList", [store_fn()], prelude=D2D_PRE, harness=h, pre_inputs=PRE_IN,
+    return Unit("C19.storeInVariableList", [store_fn()], prelude=D2D_PRE, harness=h, pre_inputs=PRE_IN, fallback_unwind=LMAX + 2,
                 inputs=D2D_INPUTS + [("int", "W_which"), ("int", "W_status"), ("int", "W_ids", "LMAX"), ("int", "W_n")],
                 enforce="_storeInVariableList",
                 claim=("ACalcDbToDb::_storeInVariableList appends the identifiers, in order, to exactly the list selected by (whichDb, status) "
